@@ -506,6 +506,35 @@ def generate(repo, outdir):
                 fh.write("use ethercrab_wire::{EtherCrabWireRead, EtherCrabWireSized, EtherCrabWireWrite, EtherCrabWireWriteSized, WireError};\n\n")
                 fh.write("\n\n".join(body) + "\n")
             paths.append(out)
+    # ---- corpus of derive inputs that do not occur in the crate: definitions + generated harnesses in one injected module
+    corpus = os.path.join(os.path.dirname(os.path.abspath(__file__)), "..", "contracts", "wire_corpus_types.rs")
+    if os.path.exists(corpus):
+        try:
+            items = scan_file(corpus)
+        except Exception as e:
+            items = []
+            notes.append(f"corpus: scan failed: {e}")
+        body = []
+        for it in items:
+            it["file"] = os.path.join(repo, "src", "lib.rs")     # reported location: the module is injected under lib.rs
+            try:
+                txt, note = gen_struct(it) if it["kind"] == "struct" else gen_enum(it)
+            except Exception as e:
+                txt, note = None, f"corpus {it['name']}: generator error {e}"
+            if note:
+                notes.append("corpus " + note)
+            if txt:
+                body.append(txt.replace("//@h name=wire_", "//@h name=wire_corpus_").replace("\nfn wire_", "\nfn wire_corpus_"))
+                n_types += 1
+        if body:
+            out = os.path.join(outdir, "wire_corpus.rs")
+            with open(out, "w") as fh:
+                fh.write("//@kani host=src/lib.rs\n// GENERATED by /verif/tools/gen_wire_harness.py from contracts/wire_corpus_types.rs — do not edit\n")
+                fh.write("use crate::verif_vk as vk;\n")
+                fh.write("use ethercrab_wire::{EtherCrabWireRead, EtherCrabWireSized, EtherCrabWireWrite, EtherCrabWireWriteSized, WireError};\n\n")
+                fh.write(open(corpus).read() + "\n\n")
+                fh.write("\n\n".join(body) + "\n")
+            paths.append(out)
     return paths, notes, n_types
 
 
